@@ -44,7 +44,7 @@ def run(chk):
                       'every Unicode scalar value alone and in the contexts a<cp>b, <cp>0, %<cp>, <cp><cp> through append_utf8_encoded_string -> opl_parse_string and (XML Chars) append_xml_encoded_string -> expat attribute + element text; every sequence of length <= 4 over a 22-symbol structural alphabet; pairwise distinctness of the escaped forms of both exhaustive sets; random strings up to 20000 code points from boundary-heavy classes; random strings at every string site of node/way/relation/changeset through OPLOutputBlock -> opl_parse_line and XMLOutputBlock -> expat; every byte string of length <= 4 (all 2^32 in thorough, random-offset stride in quick, complete boundary blocks) for over-reads and the cut-off exception. distinct = enumerated strings (distinct by construction) + hashes of random cases',
                       required_counters=['cp_scalar_values', 'cp_opl_roundtrips', 'cp_xml_roundtrips', 'cp_opl_escaped', 'cp_opl_passthrough',
                                          'seq_strings', 'inj_opl_strings', 'inj_xml_strings', 'rand_opl_strings', 'rand_xml_strings',
-                                         'rand_cutoff_strings', 'rand_hostile_strings', 'writer_opl_blocks', 'writer_xml_blocks',
+                                         'rand_cutoff_strings', 'rand_hostile_strings', 'writer_opl_blocks', 'writer_xml_blocks', 'writer_xml_blocks_through_the_xml_reader',
                                          'bytes_strings', 'bytes_wellformed_roundtrips', 'bytes_cutoff_exception_demanded',
                                          'bytes_other_invalid_not_judged', 'bytes_opl_exceptions_observed', 'bytes_strings_exact_malloc_block', 'bytes_complete_boundary_blocks'] + (['bytes_strings_guard_page', 'bytes_strings_with_throw_interception'] if T else []),
                       extra=dict(exhaustive=True if T else False,
